@@ -310,6 +310,15 @@ impl RedbStore {
                 let hash = header.hash();
                 let serialized_header = header.encode_vec();
 
+                // A hash that is already known (stored, or repeated in this batch) is a
+                // problem of the batch and must be reported as such. It needs to be checked
+                // before the height, because a repeated header repeats its height too.
+                if heights_table.insert(hash.as_bytes(), height)?.is_some() {
+                    // TODO: Replace this with `StoredDataError` when we implement
+                    // type-safe validation on insertion.
+                    return Err(StoreInsertionError::HashExists(hash).into());
+                }
+
                 if headers_table
                     .insert(height, &serialized_header[..])?
                     .is_some()
@@ -317,12 +326,6 @@ impl RedbStore {
                     return Err(StoreError::StoredDataError(
                         "inconsistency between headers table and ranges table".into(),
                     ));
-                }
-
-                if heights_table.insert(hash.as_bytes(), height)?.is_some() {
-                    // TODO: Replace this with `StoredDataError` when we implement
-                    // type-safe validation on insertion.
-                    return Err(StoreInsertionError::HashExists(hash).into());
                 }
 
                 trace!("Inserted header {hash} with height {height}");
